@@ -380,4 +380,6 @@ def run(ctx, progs):
         r5_direction_after_prepare(ctx, P)
         from . import c17
         c17.r2_forwarding_impls(ctx, P, R="C15.R6")
+        from . import c12 as _c12
+        _c12.r6_prepare_pads_layout(ctx, P, R="C15.R7")
     ctx.config = None
